@@ -216,7 +216,8 @@ pub fn psl(data: &[u8]) {
     if let Err(e) = crate::props::c10::check_structural(&s) {
         panic!("{e}");
     }
-    let canonical = !s.is_empty() && s.bytes().all(|b| b.is_ascii_lowercase() || b.is_ascii_digit() || b == b'-' || b == b'.') && !s.split('.').any(|l| l.is_empty());
+    // every name without empty labels: literal label matching against the list (see props/c10.rs)
+    let canonical = !s.is_empty() && !s.split('.').any(|l| l.is_empty());
     if canonical {
         use std::sync::OnceLock;
         static PSL: OnceLock<Option<crate::model::psl::Psl>> = OnceLock::new();
